@@ -8,8 +8,10 @@ def dispatch (cmd : String) (args : List String) : String :=
   | "DEC" => dec args
   | "DECS" => decs args
   | "ENC" => (encDp args).getD "BADARG"
+  | "RT" => rt args
   | "ORC" => (match args with
     | "C04" :: rest => orcC04 rest
+    | "C07" :: rest => orcC07 rest
     | _ => "BADORC")
   | _ => "BADCMD"
 
